@@ -270,7 +270,7 @@ ExportRaw(field, s) ==
   /\ Live /\ done' = TRUE
   /\ \E w \in Work : w[1] = "raw" /\ w[2] = field /\ Len(s) <= w[3]
   /\ RawAdmissible(field, s)
-  /\ Emit(<<[k |-> "raw", field |-> field, cls |-> s, m |-> <<1, 1>>, t |-> <<1, 1>>, v |-> <<1, 1>>,
+  /\ Emit(<<[k |-> "raw", field |-> field, cls |-> s, parsed |-> TRUE, m |-> <<1, 1>>, t |-> <<1, 1>>, v |-> <<1, 1>>,
              h_w |-> <<1, 2, 3>>, h_g |-> <<1, 2, 3>>, b |-> <<1, 1>>]>>)
 
 MaxLen == CHOOSE n \in {w[3] : w \in Work} : \A w \in Work : w[3] <= n
